@@ -351,8 +351,9 @@ MUTANTS = [
     Mutant("utf7-unclosed-final-shift", IMAP, '    if _in:\n        r.extend(b"&" + modified_base64("".join(_in)) + b"-")\n', '    if _in:\n        r.extend(b"&" + modified_base64("".join(_in)))\n',
            expect_rule="utf7/flush-at-end"),
     Mutant("utf7-unbase64-not-inverse", IMAP, '    s_utf7 = b"+" + s.replace(b",", b"/") + b"-"\n', '    s_utf7 = b"+" + s.replace(b".", b"/") + b"-"\n', expect_rule="utf7/base64-alphabet"),
-    Mutant("utf7-wrapper-removed-by-strip", IMAP, "    return s_utf7[1:-1].replace(b\"/\", b\",\")\n", "    return s_utf7.strip(b\"+-\").replace(b\"/\", b\",\")\n", expect_rule="utf7/helper-payload"),
-    Mutant("utf7-wrapper-slash-not-substituted", IMAP, "    return s_utf7[1:-1].replace(b\"/\", b\",\")\n", "    return s_utf7[1:-1]\n", expect_rule="utf7/"),
+    Mutant('F41b-revert-utf7-codec-slice', IMAP, '    s_utf16 = s.encode("utf-16-be")\n    return binascii.b2a_base64(s_utf16).rstrip(b"\\n=").replace(b"/", b",")\n', '    s_utf7 = s.encode("utf-7")\n    return s_utf7[1:-1].replace(b"/", b",")\n', expect_rule='utf7/routed-disjoint-from-codec-direct'),
+    Mutant('base64-padding-stripped-at-both-ends', IMAP, 'binascii.b2a_base64(s_utf16).rstrip(b"\\n=")', 'binascii.b2a_base64(s_utf16).strip(b"\\n=+")', expect_rule='utf7/helper-payload'),
+    Mutant('base64-slash-not-substituted', IMAP, 'rstrip(b"\\n=").replace(b"/", b",")\n', 'rstrip(b"\\n=")\n', expect_rule='utf7/'),
     Mutant("utf7-decoder-ampdash-miscount", IMAP, "            if len(decode) == 1:\n", "            if len(decode) <= 2:\n", expect_rule="utf7/decoder-transitions"),
     Mutant("utf7-decoder-shift-char-kept", IMAP, '                r.append(modified_unbase64(b"".join(decode[1:])))\n            decode = []\n',
            '                r.append(modified_unbase64(b"".join(decode)))\n            decode = []\n', expect_rule="utf7/decoder-transitions"),
@@ -375,9 +376,7 @@ SILENT = [
            more=[(IMAP, "def encoder(s, errors=None):\n", "def _shift(pending):\n    return b\"&\" + modified_base64(\"\".join(pending)) + b\"-\" if pending else b\"\"\n\n\ndef encoder(s, errors=None):\n")]),
     Silent("xtext-percent-format", SMTP, 'networkString(f"+{o:02X}")', 'b"+%02X" % (o,)'),
     Silent("utf7-valid-chars-comprehension", IMAP, '    valid_chars = set(map(chr, range(0x20, 0x7F))) - {"&"}\n', '    valid_chars = {chr(x) for x in range(32, 127) if x != 0x26}\n'),
-    Silent("F41b-repaired-base64-helper", IMAP, '    s_utf7 = s.encode("utf-7")\n    return s_utf7[1:-1].replace(b"/", b",")\n',
-           '    import binascii\n    return binascii.b2a_base64(s.encode("utf-16-be")).rstrip(b"\\n=").replace(b"/", b",")\n'),
-    Silent("utf7-wrapper-removeprefix-removesuffix", IMAP, "    return s_utf7[1:-1].replace(b\"/\", b\",\")\n",
-           "    return s_utf7.removeprefix(b\"+\").removesuffix(b\"-\").replace(b\"/\", b\",\")\n"),
+    Silent('base64-helper-single-expression', IMAP, '    s_utf16 = s.encode("utf-16-be")\n    return binascii.b2a_base64(s_utf16).rstrip(b"\\n=").replace(b"/", b",")\n', '    return binascii.b2a_base64(s.encode("utf-16-be"))[:-1].rstrip(b"=").replace(b"/", b",")\n'),
+    Silent('base64-helper-via-base64-module', IMAP, '    s_utf16 = s.encode("utf-16-be")\n    return binascii.b2a_base64(s_utf16).rstrip(b"\\n=").replace(b"/", b",")\n', '    import base64\n\n    return base64.b64encode(s.encode("utf-16-be")).rstrip(b"=").replace(b"/", b",")\n'),
     Silent("utf7-decoder-reordered-test", IMAP, '        if c == b"&" and not decode:\n', '        if not decode and c == b"&":\n'),
 ]
